@@ -690,7 +690,7 @@ static int vi_motion(int *row, int *off)
 		*off = lbuf_eol(xb, *row);
 		break;
 	case '|':
-		*off = vi_col2off(xb, *row, cnt - 1);
+		*off = ren_noeol(ln, vi_col2off(xb, *row, cnt - 1));
 		vi_pcol = cnt - 1;
 		break;
 	case '/':
